@@ -134,6 +134,14 @@ func runC43(c *eng.Ctx) {
 				return false, nil
 			}
 			a := eng.VarargElems(call.Common())
+			// Join(Join(D, name), extra...) is the same path as Join(D, name, extra...)
+			for len(a) > 0 {
+				inner, ok := eng.Unwrap(a[0]).(*ssa.Call)
+				if !ok || eng.CalleeName(inner) != "path/filepath.Join" {
+					break
+				}
+				a = append(append([]ssa.Value(nil), eng.VarargElems(inner.Common())...), a[1:]...)
+			}
 			if len(a) != 2+extra || !isD(a[0]) || !isName(a[1]) {
 				return false, a
 			}
